@@ -251,7 +251,19 @@ fn main() {
             rep.merge(run_prop(&skv_verif::engine_fault::c15(0, false), cases_for(tier, 20, 600), seed, 1, &findings));
             rep.merge(run_prop(&skv_verif::engine_fault::c15(9, true), cases_for(tier, 32, 800), seed, 2, &findings));
             rep.merge(run_prop(&sched, cases_for(tier, 2000, 40000), seed, 3, &findings));
-            let rule = format!("{} || SECOND STREAM: {}", main.rule, sched.rule);
+            {
+                // no fault at all: real writer threads against the store's own background tasks; a commit must not
+                // fail (other than by conflict / shutdown)
+                let stress = skv_verif::engine_sched::stress17_prop("C15", if tier == "thorough" { 600 } else { 300 }, true);
+                let jobs = std::env::var("VERIF_JOBS").ok();
+                std::env::set_var("VERIF_JOBS", "1");
+                rep.merge(run_prop(&stress, cases_for(tier, 10, 60), seed, 9, &findings));
+                match jobs {
+                    Some(j) => std::env::set_var("VERIF_JOBS", j),
+                    None => std::env::remove_var("VERIF_JOBS"),
+                }
+            }
+            let rule = format!("{} || SECOND STREAM: {} || THIRD STREAM (no fault injected): real writer threads, tiny memtables, automatic background mode; no commit may fail except by conflict or shutdown.", main.rule, sched.rule);
             finish(main.id, main.level, tier, seed, &rule, &main.assumptions, &rep, t0.elapsed().as_secs_f64(), &findings)
         }
         "C04" => {
@@ -316,7 +328,7 @@ fn main() {
             }
             {
                 // real threads and the store's own background tasks: one case at a time, nothing else in the process
-                let stress = skv_verif::engine_sched::stress17_prop(if tier == "thorough" { 600 } else { 150 });
+                let stress = skv_verif::engine_sched::stress17_prop("C17", if tier == "thorough" { 600 } else { 150 }, false);
                 let jobs = std::env::var("VERIF_JOBS").ok();
                 std::env::set_var("VERIF_JOBS", "1");
                 rep.merge(run_prop(&stress, cases_for(tier, 6, 40), seed, 9, &findings));
@@ -326,12 +338,16 @@ fn main() {
                 }
             }
             let def = &defs[0].0;
-            let rule = format!("{} || STRESS PART: {}", def.rule, skv_verif::engine_sched::stress17_prop(1).rule);
+            let rule = format!("{} || STRESS PART: {}", def.rule, skv_verif::engine_sched::stress17_prop("C17", 1, false).rule);
             finish(def.id, def.level, tier, seed, &rule, &def.assumptions, &rep, t0.elapsed().as_secs_f64(), &findings)
         }
         "C17" => {
             use skv_verif::engine_sched::{sched_prop, Flavor};
             run_model(vec![(sched_prop("C17", Flavor::C17), 1500, 30000), (sched_prop("C17", Flavor::C17Stall), 1200, 24000), (sched_prop("C17", Flavor::C17Permit), 1200, 24000), (sched_prop("C17", Flavor::C17Fail), 800, 16000), (sched_prop("C17", Flavor::C17Locks), 1500, 30000)], tier, replay)
+        }
+        "C17S" => {
+            std::env::set_var("VERIF_JOBS", "1");
+            run_model(vec![(skv_verif::engine_sched::stress17_prop("C17", 300, true), 10, 40)], tier, replay)
         }
         "C11S" => {
             use skv_verif::engine_sched::{sched_prop, Flavor};
